@@ -117,6 +117,13 @@ func c10Event(c obj, kind string) obj {
 		fb := [][2]string{}
 		pl.Env.Range(func(k, v string) error { fb = append(fb, [2]string{k, v}); return nil })
 		ev["block"] = fb
+		// the block is a mapping, whatever it went through: as many entries as Len says, and every entry found under its name
+		wf := pl.Env.Len() == len(fb)
+		for _, kv := range fb {
+			got, ok := pl.Env.Get(kv[0])
+			wf = wf && ok && got == kv[1]
+		}
+		ev["wf"] = wf
 		ev["probe"] = ""
 		if len(pl.Steps) > 0 {
 			if cs, ok := pl.Steps[0].(*pipeline.CommandStep); ok {
@@ -154,6 +161,7 @@ func c10Event(c obj, kind string) obj {
 		}
 		ev["panicmsg"] = msg
 		ev["err"], ev["block"], ev["probe"], ev["lookups"] = false, []any{}, "", []any{}
+		ev["wf"] = false
 		ev["probetop"] = []string{"", ""}
 	}
 	return ev
@@ -256,7 +264,14 @@ func c10RandomCase(rng *rand.Rand) obj {
 			ktok = []any{tokLit(names[i])}
 		}
 		vtok := []any{}
-		for j, m := 0, 1+rng.Intn(4); j < m; j++ {
+		bareEsc := rng.Intn(6) == 0
+		if bareEsc {
+			// the ONLY syntax of this value is an escaped dollar that no name follows (`$$5 per build`, `100\$`): it is unescaped
+			// like any other - in the block, for the caller, and for the entries that refer to this one
+			vtok = [][]any{{tokLit("cost "), tokEsc("5 per build", "dd")}, {tokLit("100"), tokEsc("", "bs")}, {tokEsc("", "dd")},
+				{tokLit("a"), tokEsc("-", "dd"), tokLit("b"), tokEsc(" c", "bs")}, {tokEsc("(date)", "dd")}}[rng.Intn(5)]
+		}
+		for j, m := 0, 1+rng.Intn(4); j < m && !bareEsc; j++ {
 			switch rng.Intn(7) {
 			case 0:
 				vtok = append(vtok, tokLit(randLit(rng)))
@@ -277,6 +292,18 @@ func c10RandomCase(rng *rand.Rand) obj {
 			}
 		}
 		block = append(block, obj{"k": spell(ktok), "v": spell(vtok), "ktok": ktok, "vtok": vtok})
+	}
+	if n >= 2 && rng.Intn(8) == 0 {
+		// two entries END under one name (the second one's name comes from a variable that holds the first one's): which of
+		// them survives is not stated - but the block stays a mapping with one entry per name
+		for _, e := range block {
+			if k := e.(obj)["k"].(string); !strings.Contains(k, "$") {
+				env0["C10_ALIAS"] = k
+				ktok, vtok := []any{tokRef("C10_ALIAS", "brace")}, []any{tokLit("collides")}
+				block = append(block, obj{"k": spell(ktok), "v": spell(vtok), "ktok": ktok, "vtok": vtok})
+				break
+			}
+		}
 	}
 	probe := append([]string{}, runtime...)
 	for _, e := range block {
